@@ -487,6 +487,61 @@ def memory_set_sequence(rec, rng, cid):
                   % (rt, kind, hist[:-1], want), case)
 
 
+REFITS = [dict(method_kws={"ftol": .1, "xtol": .1}),
+          dict(method_kws={"ftol": 1e-3}),
+          dict(weight_cp=0), dict(weight_cp=4e-7),
+          dict(range_x=[-8e-7, 1e-6]), dict(gcf_k=.5),
+          dict(method="nelder"), dict(segment=1),
+          dict(optimal_fit_edelta=True, optimal_fit_num_samples=8),
+          dict(model_key="hertz_cone")]
+
+
+def refit_sequence(rec, rng, cid):
+    """ONE curve is rated, refitted with one setting changed, rated again,
+    ...: every rating belongs to the fit that is current (the cache is keyed
+    by the fit hash)"""
+    from nanite.rate.features import IndentationFeatures as IF
+    spec = fitlab.draw_curve_spec(rng, models=["hertz_para"], npts=(700,),
+                                  noise_snr=(50, 20), with_tip=True)
+    idnt = fitlab.build_curve(spec)[0]
+    idnt.apply_preprocessing(["compute_tip_position", "correct_force_offset",
+                              "correct_tip_offset"])
+    reg = ["Extra Trees", "Random Forest", "AdaBoost"][int(rng.integers(3))]
+    hist = []
+    try:
+        idnt.fit_model(model_key="hertz_para")
+    except BaseException:  # noqa
+        return
+    for step in range(5):
+        case = {"id": cid, "kind": "refit-sequence", "regressor": reg,
+                "refits": list(hist)}
+        try:
+            rt = idnt.rate_quality(regressor=reg)
+        except BaseException as e:  # noqa
+            rec.violation("raises/refit-sequence/" + type(e).__name__,
+                          "rate_quality raised %s" % str(e)[:80], case)
+            return
+        orat = oracle_rater(reg, "zef18", None, None, "zef18")
+        fe = IF.compute_features(idnt, names=orat.names)
+        if idnt.fit_properties.get("success") and not np.isnan(fe).any() \
+                and not np.any(IF.compute_features(
+                    idnt, which_type="binary") == 0):
+            want = orat.rate(samples=np.atleast_2d(fe))[0]
+            rec.evaluated(dg=("refitseq", cid, list(hist)))
+            rec.event("ratings compared with the standalone rater")
+            rec.event("ratings after a refit of the same curve")
+            rec.check(rt == want, "rating-not-of-the-current-fit",
+                      "after the refits %s the curve is rated %r, the "
+                      "standalone rater gives %r for its current features"
+                      % (hist, rt, want), case)
+        kw = copy.deepcopy(REFITS[int(rng.integers(len(REFITS)))])
+        hist.append(kw)
+        try:
+            idnt.fit_model(**kw)
+        except BaseException:  # noqa
+            return
+
+
 def crosstalk(rec, rng, cid, tsets):
     """configurations that differ in one component, requested one after the
     other on FRESH curve objects in this process: a rating must not depend on
@@ -637,6 +692,10 @@ def _run_shard(rec, tier, seed, shard, nshards):
                   [shard, 10 ** 6 + 1], tsets)
         memory_set_sequence(rec, core.case_rng(seed, ID, shard, 10 ** 6 + 2),
                             [shard, 10 ** 6 + 2])
+        for j in range(3 if tier == "quick" else 40):
+            refit_sequence(rec, core.case_rng(seed, ID, shard,
+                                              10 ** 6 + 10 + j),
+                           [shard, 10 ** 6 + 10 + j])
         if xproc is not None:
             cross_process(rec, xproc, seed)
     finally:
